@@ -61,6 +61,10 @@ def search(chk, n_cases):
                                 cutoff_type=rng.choice(["exponential", "gaussian"]), temperature=T)
         op = rng.choice([0.5 * sz, 0.5 * sx + 0.3 * sz, 0.3 * sx + 0.4 * sy, 0.5 * sy + 0.2 * sz])      # incl. complex eigenbases
         forced_storage = None
+        if it == 7:
+            # every run: a Gibbs state at sizeable coupling, Hamiltonian not commuting with the coupling, coupling eigenvalues of different magnitude
+            method, alpha, T = "gibbs", rng.choice([0.5, 1.5]), rng.choice([0.3, 2.0])
+            corr = oqupy.PowerLawSD(alpha=alpha, zeta=1, cutoff=rng.choice([1.0, 5.0]), cutoff_type="exponential", temperature=T)
         if it == 3:
             method = "tebd"           # every run: a chain with recorded site subsets
         if it < 3:
@@ -92,6 +96,13 @@ def search(chk, n_cases):
                 method = "meanfield"
         elif dkmax is not None and rng.random() < 0.5:
             tau_add = rng.choice([0.15, 1.0, np.inf])
+        if it == 0:
+            # the file-backed PT-TEMPO case of every run: a longer run at strong coupling without a memory cut-off (the cap tensors
+            # of the intermediate steps are far from trivial there)
+            n, dkmax, tau_add = 12, None, None
+            alpha, T = rng.choice([0.5, 1.0]), rng.choice([0.3, 0.7])
+            corr = oqupy.PowerLawSD(alpha=alpha, zeta=1, cutoff=rng.choice([2.0, 4.0]), cutoff_type="exponential", temperature=T)
+            bath = oqupy.Bath(op, corr)
         par = oqupy.TempoParameters(dt=dt, epsrel=eps, dkmax=dkmax, add_correlation_time=tau_add, subdiv_limit=None)
         rho0 = rand_rho(rng, d, rng.choice(["pure", "mixed", "rank-deficient"]))
         syskind = rng.choice(["H", "lindblad", "td"])
@@ -137,8 +148,10 @@ def search(chk, n_cases):
             elif method == "gibbs":
                 if T == 0.0:
                     continue
-                gb = oqupy.Bath(np.array([[1.0, 0.0], [0.0, -0.5]]), corr)
+                gb = oqupy.Bath(np.diag(rng.choice([[1.0, -0.5], [1.0, 0.0], [0.0, 1.0]])), corr)
                 hs = rng.choice([0.5 * sz, 0.4 * sx + 0.2 * sz, 0.3 * sy + 0.1 * sz])
+                if it == 7:
+                    hs = rng.choice([0.4 * sx + 0.2 * sz, 0.3 * sy + 0.1 * sz])       # the forced case: does not commute with the coupling
                 g = oqupy.GibbsTempo(oqupy.System(hs), gb, oqupy.GibbsParameters(n_steps=rng.choice([4, 10, 25]), epsrel=1e-9))
                 quiet(g.compute, progress_type="silent")
                 states = [g.get_state()]
@@ -410,10 +423,29 @@ def run(chk):
             sup = [opr.left_right_super(u, u.conj().T), opr.left_right_super(u.conj().T, u)]
             H = herm_int(rng, d)
             nt = rng.randint(0, 2)
+            if it % 3 == 0:
+                # a Hamiltonian that is a diagonal matrix (also: a multiple of the identity, zero) with Lindblad operators that are not
+                H = np.diag([float(rng.randint(-2, 2)) for _ in range(d)]).astype(complex) * rng.choice([1.0, 1.0, 0.0])
+                nt = rng.randint(1, 2)
+            elif it % 3 == 1:
+                # a repeated eigenvalue, written in a rotated basis; no dissipators in half of these
+                q_ = np.linalg.qr(np.array([[rng.gauss(0, 1) + 1j * rng.gauss(0, 1) for _ in range(d)] for _ in range(d)]))[0]
+                H = q_ @ np.diag([0.8] * (d - 1) + [-0.4]).astype(complex) @ q_.conj().T
+                H = (H + H.conj().T) / 2
+                nt = rng.choice([0, 0, 1])
             sysm = oqupy.System(H, gammas=[rng.uniform(0, 1) for _ in range(nt)],
                                 lindblad_operators=[gint(rng, (d, d), -1, 1) for _ in range(nt)])
-            sup += list(sysm.get_propagators(par.dt, 0.0, None, 1e-6)(0))
+            props_ = list(sysm.get_propagators(par.dt, 0.0, None, 1e-6)(0))
+            sup += props_
             dev = max(np.abs(tr @ m - tr).max() / max(1.0, np.abs(m).max()) for m in sup)
+            # the half-step propagators of a time-independent System are exp(L dt/2) of ITS Liouvillian (tied exactly above)
+            from scipy.linalg import expm as _expm
+            want_ = _expm(np.array(sysm.liouvillian()) * par.dt / 2.0)
+            pdev = max(np.abs(np.array(m) - want_).max() for m in props_)
+            if pdev > 1e-11 * max(1.0, np.abs(want_).max()):
+                chk.fail("propagator-not-exp-of-liouvillian", f"System.get_propagators: a half-step propagator differs from exp(L dt/2) by {pdev:.2e} "
+                         f"(Hamiltonian {'diagonal' if it % 3 == 0 else 'degenerate, rotated' if it % 3 == 1 else 'generic'}, {nt} Lindblad operator(s))",
+                         dict(info, hamiltonian_kind=["diagonal", "degenerate-rotated", "generic"][it % 3], lindblad_operators=nt))
         except Exception as ex:
             chk.fail("method-raises", f"building the TEMPO ingredients raises {ex!r}", info)
             continue
